@@ -250,6 +250,20 @@ fn apply(doc: &mut DocumentMut, op: &str) -> Option<()> {
                 _ => return None,
             }
         }
+        ("adelr", 3) => {
+            // the same removal through `Array::retain` (a different mutator of the same container)
+            let i = idx_of(a[2])?;
+            match node {
+                Node::Value(Value::Array(x)) if i < x.len() => {
+                    let mut n = 0usize;
+                    x.retain(|_| {
+                        n += 1;
+                        n - 1 != i
+                    });
+                }
+                _ => return None,
+            }
+        }
         ("tpush", 2) => match node {
             Node::Aot(x) => {
                 let mut t = Table::new();
